@@ -415,6 +415,8 @@ def make_calibrator(spec, folder):
         kw["scheduler"] = RLScheduler(ss, MABEpsilonGreedy(n, 0.1, 0.1, random_state=1), MABCalibrationEnv(n))
     else:
         kw["samplers"] = make_samplers(spec)
+    if spec.get("sim_length"):
+        kw["sim_length"] = spec["sim_length"]
     return quiet(Calibrator, loss_function=make_loss(spec), real_data=real, model=model,
                  parameters_bounds=spec["bounds"], parameters_precision=spec["precision"], ensemble_size=spec["E"],
                  convergence_precision=spec["prec"], verbose=spec["verbose"],
@@ -422,7 +424,8 @@ def make_calibrator(spec, folder):
 
 
 def gen_stress_spec(rng, E=None, N=None, D=None, dims=None, prec=None):
-    dims = dims or rng.randint(1, 3)
+    # mostly 1-3 parameters; sometimes more than ten (column names params_samp_10, _11, ... sort before params_samp_2)
+    dims = dims or (rng.randint(1, 3) if rng.below(6) else rng.randint(11, 13))
     N = N or rng.randint(1, 3)
     D = D or rng.randint(1, 2)
     lo = [rng.randint(-5, 5) * 0.5 for _ in range(dims)]
@@ -435,6 +438,8 @@ def gen_stress_spec(rng, E=None, N=None, D=None, dims=None, prec=None):
             "precision": [rng.choice([0.25, 0.05, 0.125, 0.01]) for _ in range(dims)],
             "real": [rand_float(rng) for _ in range(N * D)], "prec": prec, "verbose": bool(rng.below(4) == 0),
             "seed": rng.below(2**31) if rng.below(6) else None, "saving": True, "samplers": samplers,
+            # a simulation length that differs from the number of rows of the real data (legal; only a RuntimeWarning)
+            "sim_length": N + rng.randint(1, 3) if rng.below(5) == 0 else None,
             "loss": {"kind": "stress", "script": [rand_float(rng) for _ in range(rng.randint(3, 12))]}}
 
 
